@@ -222,9 +222,37 @@ Sugar == {"opt","plus","rep_min","rep","rep_opt","rep_max","rep_min_max","if_mus
           "separated_seq","rep_string","rep_one_min_max"} \cup ClassOps
 
 -----------------------------------------------------------------------------
+(* contrib/integer.hpp: numeral syntax (C15).  Values are compared as      *)
+(* decimal digit sequences because TLC integers are 32 bit.                *)
+EDigit == E("digit", <<>>, <<>>)
+EUnsigned == E("if_then_else", <<EOne(<<48>>), ENot(<<EDigit>>), E("plus", <<EDigit>>, <<>>)>>, <<>>)   \* no superfluous leading zero
+ESigned   == ESeq(<<EOpt(<<EOne(<<45, 43>>)>>), EUnsigned>>)
+RECURSIVE DecLexLeq(_, _, _)
+DecLexLeq(a, b, i) == IF i > Len(a) THEN TRUE
+                      ELSE IF a[i] < b[i] THEN TRUE ELSE IF a[i] > b[i] THEN FALSE ELSE DecLexLeq(a, b, i + 1)
+DecLeq(a, b) == Len(a) < Len(b) \/ (Len(a) = Len(b) /\ DecLexLeq(a, b, 1))    \* numerals without leading zeros
+Digits(p, e) == [i \in 1..(e - p) |-> W[p + i] - 48]
+
+(* contrib/raw_string.hpp: Lua long brackets (C16) *)
+MinOf(S) == CHOOSE x \in S : \A y \in S : x <= y
+RECURSIVE MarkerRun(_, _, _)
+MarkerRun(q, lim, mk) == IF q < lim /\ SBy(q) = mk THEN 1 + MarkerRun(q + 1, lim, mk) ELSE 0
+\* length of the opening long bracket at p (level + 2), 0 if there is none
+RawOpenLen(p, lim, op, mk) ==
+   IF p < lim /\ SBy(p) = op
+   THEN LET n == MarkerRun(p + 1, lim, mk) IN IF p + 1 + n < lim /\ SBy(p + 1 + n) = op THEN n + 2 ELSE 0
+   ELSE 0
+RawCloseAt(q, ms, lim, mk, cl) ==
+   /\ q + ms <= lim
+   /\ SBy(q) = cl /\ SBy(q + ms - 1) = cl
+   /\ \A i \in 1..(ms - 2) : SBy(q + i) = mk
+\* where the content starts: after the bracket and one immediately following line ending
+RawContentStart(p, ms, c) == LET e == EolEnd(p + ms, c) IN IF e >= 0 THEN e ELSE p + ms
+
+-----------------------------------------------------------------------------
 RECURSIVE DenX(_, _, _, _), Den(_, _, _, _), SeqK(_, _, _, _, _), SorK(_, _, _, _, _),
           StarK(_, _, _, _), MustK(_, _, _, _, _),
-          StarPartialK(_, _, _, _), StarStrictK(_, _, _, _), RematchK(_, _, _, _, _, _)
+          StarPartialK(_, _, _, _), StarStrictK(_, _, _, _), RematchK(_, _, _, _, _, _), RawUntilK(_, _, _, _, _, _)
 
 \* a node: its body, then its own action
 Den(n, p, c, d) ==
@@ -283,6 +311,13 @@ RematchK(ks, i, p, e, c, d) ==
    ELSE LET r == DenX(ks[i], p, [c EXCEPT !.lim = e], d) IN
         IF r.k = "T" THEN RematchK(ks, i + 1, p, e, c, d) ELSE r
 
+\* raw_string with content rules: until< at the closing bracket, Contents... >
+RawUntilK(ks, q, ms, pp, c, d) ==
+   IF RawCloseAt(q, ms, c.lim, pp[2], pp[3]) THEN RT(q + ms)
+   ELSE LET r == SeqK(ks, 1, q, c, d) IN
+        CASE r.k = "T" -> IF r.e = q THEN RL ELSE RawUntilK(ks, r.e, ms, pp, c, d)
+          [] OTHER     -> r
+
 DenX(x, p, c, d) ==
    LET op == x.op  k == x.kids  pp == x.p  lim == c.lim IN
    CASE op = "ref"      -> Den(pp[1], p, c, d)
@@ -340,6 +375,18 @@ DenX(x, p, c, d) ==
      [] op = "try_catch_raise_nested" ->
                            LET r == SeqK(k, 1, p, c, d) IN
                            IF r.k = "X" /\ Catches(pp[1], r.who) THEN RXN(pp[2], p) ELSE r
+     \* contrib
+     [] op = "unsigned_rule" -> DenX(EUnsigned, p, c, d)
+     [] op = "signed_rule"   -> DenX(ESigned, p, c, d)
+     [] op = "maximum_rule"  -> LET r == DenX(EUnsigned, p, c, d) IN
+                                IF r.k = "T" /\ ~DecLeq(Digits(p, r.e), pp) THEN RF ELSE r
+     [] op = "raw_string"    -> LET ms == RawOpenLen(p, lim, pp[1], pp[2]) IN
+                                IF ms = 0 THEN RF
+                                ELSE LET cs == RawContentStart(p, ms, c) IN
+                                     IF k = <<>>
+                                     THEN LET Q == {q \in cs..lim : RawCloseAt(q, ms, lim, pp[2], pp[3])} IN
+                                          IF Q = {} THEN RF ELSE RT(MinOf(Q) + ms)
+                                     ELSE RawUntilK(k, cs, ms, pp, c, d)
      [] op = "opaque"   -> RO
      [] op \in Sugar    -> DenX(Desugar(x), p, c, d)
 
